@@ -189,6 +189,17 @@ def _explore_star(args: tuple[Any, ...]) -> dict[str, Any]:
                 "fail": None, "unshrunk": None, "seed": args[2]}
 
 
+def _strict(obj: Any) -> Any:
+    """JSON-safe copy: non-finite floats become strings (strict parsers reject NaN / Infinity tokens)."""
+    if isinstance(obj, float) and (obj != obj or obj in (float("inf"), float("-inf"))):
+        return repr(obj)
+    if isinstance(obj, dict):
+        return {str(k): _strict(x) for k, x in obj.items()}
+    if isinstance(obj, (list, tuple, set, frozenset)):
+        return [_strict(x) for x in obj]
+    return obj
+
+
 def write_evidence(pid: str, mod: Any, tier: str, seed: int, stats: Stats, wall: float,
                    violations: int, extra: dict[str, Any]) -> None:
     total = max(1, stats.evaluations)
@@ -223,7 +234,8 @@ def write_evidence(pid: str, mod: Any, tier: str, seed: int, stats: Stats, wall:
         return
     out = ROOT / "evidence"
     out.mkdir(exist_ok=True)
-    (out / f"{pid}.json").write_text(json.dumps(evidence, indent=1, sort_keys=True, default=str) + "\n")
+    (out / f"{pid}.json").write_text(
+        json.dumps(_strict(evidence), indent=1, sort_keys=True, default=str, allow_nan=False) + "\n")
 
 
 def _save_replay(pid: str, name: str, case: Any, violations: list[str]) -> Path:
